@@ -443,10 +443,15 @@ func (r *Reader) metaSeq(moltype, id []byte) (seq.Sequence, error) {
 	for {
 		line, err = r.r.ReadBytes('\n')
 		if err != nil {
-			if err == io.EOF {
+			if err != io.EOF {
+				return nil, &csv.ParseError{Line: r.line, Err: err}
+			}
+			// A final line without a terminator is returned with io.EOF;
+			// handle it now, the next read reports the io.EOF.
+			if len(line) == 0 {
 				return nil, err
 			}
-			return nil, &csv.ParseError{Line: r.line, Err: err}
+			err = nil
 		}
 		r.line++
 		line = bytes.TrimSpace(line)
@@ -490,10 +495,15 @@ func (r *Reader) Read() (f feat.Feature, err error) {
 	for {
 		line, err = r.r.ReadBytes('\n')
 		if err != nil {
-			if err == io.EOF {
+			if err != io.EOF {
+				return nil, &csv.ParseError{Line: r.line, Err: err}
+			}
+			// A final line without a terminator is returned with io.EOF;
+			// handle it now, the next call reports the io.EOF.
+			if len(line) == 0 {
 				return f, err
 			}
-			return nil, &csv.ParseError{Line: r.line, Err: err}
+			err = nil
 		}
 		r.line++
 		line = bytes.TrimSpace(line)
